@@ -204,9 +204,9 @@ func lexemeStrings(maxLen, maxLenBracket int, f func(s string) bool) {
 
 func lexemeUnit(first string) func(r *engine.Rec) {
 	return func(r *engine.Rec) {
-		maxLen, maxB := 3, 4
+		maxLen, maxB := 4, 5
 		if r.Tier == "thorough" {
-			maxLen, maxB = 4, 6
+			maxLen, maxB = 5, 6
 		}
 		n := 0
 		var rec func(cur string, k int)
@@ -281,7 +281,11 @@ var corpus = []string{
 	"[\n    \"k1\": 1\n    \"k2\": 2\n    \"k3\": 3\n    \"k4\": 4\n    \"k5\": 5\n    \"k6\": 6\n    \"k7\": 7\n](Catalog)\n",
 }
 
-func corpusEdits(r *engine.Rec) {
+func corpusEdits(di int) func(r *engine.Rec) {
+	return func(r *engine.Rec) { corpusEditsDoc(r, di) }
+}
+
+func corpusEditsDoc(r *engine.Rec, only int) {
 	ins := []string{"[", "]", "(", ")", ":", ",", "\n", "x", "\"", "1", " ", "'"}
 	seen := map[string]bool{}
 	try := func(part, src string, injected int) {
@@ -294,7 +298,10 @@ func corpusEdits(r *engine.Rec) {
 		}
 	}
 	for di, doc := range corpus {
-		if di%2 == 0 && r.TimeUp() {
+		if di != only {
+			continue
+		}
+		if r.TimeUp() {
 			r.Incomplete("time budget")
 			break
 		}
@@ -350,7 +357,7 @@ func corpusEdits(r *engine.Rec) {
 	r.States += int64(len(seen))
 	r.Distinct += int64(len(seen))
 	r.Transitions += r.Evals
-	r.Sample(inCase{"illegal-char", corpus[3][:12] + "~" + corpus[3][12:]})
+	r.Sample(inCase{"illegal-char", corpus[only][:8] + "~" + corpus[only][8:]})
 }
 
 var complexLit = regexp.MustCompile(`\([-+0-9.eE]+i\)`)
@@ -390,7 +397,7 @@ func ladder(r *engine.Rec) {
 func init() {
 	engine.Register(&engine.Check{
 		ID:        "C12",
-		Technique: "bounded-exhaustive input enumeration on the real scanner+parser, each parse run as a two-thread program under the scheduler (so a parked scanner goroutine after the call is a scheduler fact, not a sleep-and-count): all strings of <=3 lexemes over an 18-lexeme alphabet plus all <=4-lexeme strings starting with '[', all strings of <=3 raw characters, every prefix/deletion/insertion/substitution/context swap/illegal-character injection of a corpus, a nesting ladder; non-termination by fuel",
+		Technique: "bounded-exhaustive input enumeration on the real scanner+parser, each parse run as a two-thread program under the scheduler (so a parked scanner goroutine after the call is a scheduler fact, not a sleep-and-count): all strings of <=4 lexemes over an 18-lexeme alphabet plus all <=5-lexeme strings starting with '[', all strings of <=3 raw characters, every prefix/deletion/insertion/substitution/context swap/illegal-character injection of a corpus, a nesting ladder; non-termination by fuel",
 		Rule:      "case = one input string; the diagnostic's token header is checked against the source text (line, column, quoted text)",
 		Assume:    []string{"coverage-guided fuzzing (sampling) is replaced by the larger deterministic enumeration of the thorough tier", "stack exhaustion by million-level nesting is out of reach (scanner is quadratic); the ladder stops at 2000 levels"},
 		Budget: func(tier string) time.Duration {
@@ -404,7 +411,10 @@ func init() {
 			for _, l := range lexemes {
 				us = append(us, engine.Unit{Name: "lexemes-" + strconv.Quote(l), Run: lexemeUnit(l)})
 			}
-			us = append(us, engine.Unit{Name: "raw-characters", Run: rawChars}, engine.Unit{Name: "corpus-edits", Run: corpusEdits}, engine.Unit{Name: "nesting-ladder", Run: ladder})
+			us = append(us, engine.Unit{Name: "raw-characters", Run: rawChars}, engine.Unit{Name: "nesting-ladder", Run: ladder})
+			for di := range corpus {
+				us = append(us, engine.Unit{Name: fmt.Sprintf("corpus-edits-%d", di), Run: corpusEdits(di)})
+			}
 			return us
 		},
 	})
